@@ -13,6 +13,7 @@ func C16Req(t *rapid.T, label string, concurrent bool) *world.Req {
 		rq.Method = Pick(t, label+"-m", "POST", "DELETE", "PUT")
 	}
 	if Pct(t, label+"-xa", 60) {
+		// now and then under a key the caller wrote into the map itself ("!": not canonical)
 		rq.Header = append(rq.Header, H("X-A", Pick(t, label+"-xav", "1", "2")))
 	}
 	if rq.Method == "GET" && Pct(t, label+"-rcc", 15) {
@@ -66,6 +67,14 @@ func C16Req(t *rapid.T, label string, concurrent bool) *world.Req {
 			rq.LateBodyNs = Sec
 		}
 		rq.ReuseReq = Pct(t, label+"-reuse", 30)
+	} else {
+		rq.Scribble = Pct(t, label+"-sscribble", 30)
+		rq.ReuseReq = Pct(t, label+"-sreuse", 30)
+	}
+	if rq.ReuseReq && Pct(t, label+"-rlate", 40) {
+		// reuse while a background revalidation may be in flight
+		rq.ReuseDelayNs = Sec / 2
+		rq.ReuseSet = [][2]string{H("X-A", Pick(t, label+"-rxav", "1", "2"))}
 	}
 	return rq
 }
@@ -91,6 +100,28 @@ func C16(t *rapid.T) *world.Scenario {
 			th = append(th, C16Req(t, "t"+itoa(int64(ti))+"-"+itoa(int64(i)), true))
 		}
 		sc.Threads = append(sc.Threads, th)
+	}
+	if Pct(t, "rawkeys", 8) {
+		// Some callers write a field into the header map under a key of their own spelling
+		// ("!": not canonical). Which variant such a request selects is not judged (Go code
+		// conventionally does not see such keys), but the request is still the caller's.
+		raw := func(lbl string, rq *world.Req) {
+			for i := range rq.Header {
+				if rq.Header[i][0] == "X-A" && Pct(t, lbl, 60) {
+					rq.Header[i][0] = Pick(t, lbl+"k", "!x-a", "!X-a", "!x-A")
+				}
+			}
+		}
+		for i, st := range sc.Steps {
+			if st.Op == "req" {
+				raw("raw-w"+itoa(int64(i)), st.Req)
+			}
+		}
+		for ti, th := range sc.Threads {
+			for i, rq := range th {
+				raw("raw-t"+itoa(int64(ti))+"-"+itoa(int64(i)), rq)
+			}
+		}
 	}
 	return sc
 }
